@@ -322,6 +322,39 @@ func judgeTod(c TodCase) *eng.Fail {
 	arr, _ := o2.val.([]interface{})
 	wantT := fmt.Sprintf("%04d-%02d-%02d %02d:%02d:%02d", ty, tmo, td, tsod/3600, tsod%3600/60, tsod%60)
 	wantO := fmt.Sprintf("%04d-%02d-%02d %02d:%02d:%02d", oy, omo, od, c.H, c.Mi, c.S)
+	// the result really lives in the target zone: its numeric offset, and civil arithmetic on it
+	off := offsetAt(target, t.Unix())
+	sign := "+"
+	if off < 0 {
+		sign, off = "-", -off
+	}
+	wantOff := fmt.Sprintf("%s%02d%02d", sign, off/3600, off%3600/60)
+	o3, perr3 := evalWith("timeFormat(useTimezone(t, z), '-0700')", data)
+	if perr3 != nil || o3.panicked || o3.err != nil {
+		return eng.F("C19/eval", "timeFormat(.., '-0700'): %v %v %s", perr3, o3.err, o3.panicMsg)
+	}
+	if o3.val != interface{}(wantOff) {
+		return eng.F("C19/useTimezone-zone", "useTimezone(%s, %q) rendered with layout -0700 gives %s, the zone's offset at that instant is %s", what, c.Target, show(o3.val), wantOff)
+	}
+	for _, dm := range []int{6, -5} {
+		shifted := normDays(ty, tmo+int64(dm), td)*86400 + tsod
+		if !localExists(target, shifted) {
+			continue
+		}
+		// skip ambiguous local times (two instants): either is acceptable, fields are the same
+		data["dm"] = float64(dm)
+		o4, perr4 := evalWith("$v = addDate(useTimezone(t, z), 0, dm, 0), [year($v), month($v), day($v), hour($v), minute($v), second($v), weekDay($v), millSecond($v)]", data)
+		if perr4 != nil || o4.panicked || o4.err != nil {
+			return eng.F("C19/eval", "addDate(useTimezone(..)): %v %v %s", perr4, o4.err, o4.panicMsg)
+		}
+		f4, ok := intsOf(o4.val, 8)
+		if !ok {
+			return eng.F("C19/eval", "addDate(useTimezone(..)): result %s", show(o4.val))
+		}
+		if fl := checkFields(target, fmt.Sprintf("addDate(useTimezone(%s, %q), 0, %d, 0)", what, c.Target, dm), f4, shifted); fl != nil {
+			return fl
+		}
+	}
 	if len(arr) != 3 || arr[0] != interface{}(wantT) || arr[1] != interface{}(wantO) || arr[2] != interface{}(wantT[11:16]) {
 		return eng.F("C19/timeFormat-zone", "the instant %s rendered in %q and in its own zone gives %s, expected [%q, %q, %q]", what, c.Target, show(o2.val), wantT, wantO, wantT[11:16])
 	}
